@@ -60,7 +60,7 @@ vh::Outcome run_tw(const vh::Case& c) {
                     if (kind <= 2) {
                         // ---------------------------------------------------- trigger life cycle on one of the fiber's own lines
                         int l = (int)i * 2 + (op.a & 1);
-                        int variant = op.b % 5;
+                        int variant = op.b % 6;
                         auto a = make_trigger(l);
                         std::unique_ptr<gc::TripWireTrigger> armed;
                         if (variant == 0 || variant == 4) armed = std::move(a);
@@ -68,6 +68,12 @@ vh::Outcome run_tw(const vh::Case& c) {
                             lbl_moved = true;
                             armed = std::make_unique<gc::TripWireTrigger>(std::move(*a));
                             if (variant == 1) { a.reset(); check_untripped_if_unbegun(l, "after destroying a moved-from trigger"); }
+                        } else if (variant == 5) {
+                            // two triggers on the SAME line, one move-assigned onto the other: the moved-from one must not trip the line
+                            lbl_moved = true;
+                            armed = make_trigger(l);
+                            *armed = std::move(*a);
+                            a.reset(); check_untripped_if_unbegun(l, "after destroying a trigger that was moved onto another trigger of the same line");
                         } else {
                             lbl_moved = true;
                             armed = std::make_unique<gc::TripWireTrigger>(scratch);      // its duty for the scratch line is dropped by the assignment (unspecified: nobody polls it)
